@@ -469,9 +469,11 @@ def _run_check(pid, tier, seed, mod, ctx, t0):
         print(f"[{pid}] " + " ".join(f"{k}={v}" for k, v in tot.extra.items() if not isinstance(v, (dict, list))))
     for rid, rec in sorted(known_lines.items()):
         print(f"KNOWN-FINDING: property={pid} {rid}: {rec['what']}")
-    if missing:
+    # the coverage self-check guards against a vacuous SILENT run; when confirmed violations exist they are reported first
+    # (on a broken tree a missing fact can be a consequence of the very defect being reported)
+    if not confirmed and missing:
         raise HarnessError(f"coverage self-check failed, facts never observed: {missing}")
-    if tot.caps_hit:
+    if not confirmed and tot.caps_hit:
         raise HarnessError(f"cap hit before the promised bound was completed: {tot.caps_hit}")
     if confirmed:
         os.makedirs(os.path.join(OUT, "replays", pid), exist_ok=True)
